@@ -216,7 +216,8 @@ impl Svc for Handler {
 }
 
 pub fn enc_of(s: &str) -> Option<CompressionEncoding> { crate::labs::framing::enc_of(s) }
-fn lim(v: &Value) -> Option<usize> { v.as_i64().filter(|n| *n >= 0).map(|n| n as usize) }
+/// -1 = not configured; -2, -3, -4 = limits beyond the 32-bit length prefix (2^32, 2^32 + 16, usize::MAX)
+fn lim(v: &Value) -> Option<usize> { match v.as_i64().unwrap_or(-1) { -2 => Some(1usize << 32), -3 => Some((1usize << 32) + 16), -4 => Some(usize::MAX), n if n < 0 => None, n => Some(n as usize) } }
 
 pub fn build_server(stim: &Value, log: &Rec) -> SvcServer<Handler> {
     let mut svc = SvcServer::new(Handler { script: Arc::new(stim["script"].clone()), log: log.clone() });
@@ -315,6 +316,7 @@ async fn run_client_h2(stim: &Value, log: &Rec) {
     let (c_io, s_io, _dead) = Shim::pair(sh["cap"].as_u64().unwrap_or(65536) as usize, sh["rq"].as_u64().unwrap_or(65536) as usize,
         sh["wq"].as_u64().unwrap_or(65536) as usize, sh["pend"].as_u64().unwrap_or(0) as usize);
     let svc = build_server(stim, log);
+    let mut keep_open: Vec<Shim> = vec![];
     let srv = if stim["server"]["blackhole"].as_bool().unwrap_or(false) {
         // a peer that speaks HTTP/2, accepts every request and never answers (and is not tonic: it knows nothing about
         // grpc-timeout), so only the caller's own timer can end the call
@@ -325,7 +327,12 @@ async fn run_client_h2(stim: &Value, log: &Rec) {
             }
         })
     } else {
-        let incoming = tokio_stream::StreamExt::chain(tokio_stream::once(Ok::<_, std::io::Error>(s_io)), tokio_stream::pending());
+        // server.earlier_conns: that many other connections are accepted first (their client halves stay open, unused): the
+        // connection under test is then not the server's first one
+        let mut ios = vec![];
+        for _ in 0..stim["server"]["earlier_conns"].as_u64().unwrap_or(0) { let (c0, s0, _d0) = Shim::pair(65536, 65536, 65536, 0); keep_open.push(c0); ios.push(Ok::<_, std::io::Error>(s0)); }
+        ios.push(Ok(s_io));
+        let incoming = tokio_stream::StreamExt::chain(tokio_stream::iter(ios), tokio_stream::pending());
         let mut sb = tonic::transport::Server::builder();
         // server.layer: a (do-nothing) tower layer added to the builder before or after the timeout is configured - the order of
         // builder calls must not matter
@@ -371,6 +378,7 @@ async fn run_client_h2(stim: &Value, log: &Rec) {
         Err(e) => log.ev(json!({"e":"connect_err","msg":e.to_string()})),
     }
     srv.abort();
+    drop(keep_open);
 }
 
 /// mode "mock": the generated client talks to a canned http response (C05 response side, C04 classification through the client)
